@@ -173,8 +173,93 @@ def sh_holder(J, p, o):
     }
 
 
+# Plain / class-group targets whose option has MORE THAN ONE SPELLING on the command line: explicit aliases
+# (-t / --t / --target, and argparse's unique abbreviations of a long alias), the automatic append option of a
+# list-typed argument (--t+), the negated form of a yes/no flag (--no_t).  Per kind: the option strings the target
+# action is expected to own (checked at run time against the real action, so a spelling the library adds later is
+# noticed), the tokens for the value supplied for the target, and every way of writing it:
+# (spelling class, argv tokens).  The canonical "--<dest>=<value>" form is the `option` / `option_first` supply of
+# every plain shape and is not repeated here.  Spelling classes: canonical (the --<dest> string, other token form),
+# alias, abbrev, append, negation.
+SPELL = {
+    "alias": {
+        "ostr": ["-t", "--t", "--target"], "enc": "int",
+        "forms": [("canonical", ["--t", "99"]),
+                  ("alias", ["-t", "99"]), ("alias", ["-t=99"]), ("alias", ["-t99"]),
+                  ("alias", ["--target=99"]), ("alias", ["--target", "99"]),
+                  ("abbrev", ["--ta=99"]), ("abbrev", ["--tar=99"]), ("abbrev", ["--targ=99"]),
+                  ("abbrev", ["--targe=99"]), ("abbrev", ["--targ", "99"])],
+    },
+    "list": {
+        "ostr": ["--t", "--t+"], "enc": "list",
+        "forms": [("canonical", ["--t", "[99]"]),
+                  ("append", ["--t+=99"]), ("append", ["--t+", "99"]), ("append", ["--t+=[99]"])],
+    },
+    "optlist": {
+        "ostr": ["--t", "--t+"], "enc": "list",
+        "forms": [("canonical", ["--t=null"]),
+                  ("append", ["--t+=99"]), ("append", ["--t+", "99"]), ("append", ["--t+=[99]"])],
+    },
+    "yesno": {
+        "ostr": ["--t", "--no_t"], "enc": "bool",
+        "forms": [("canonical", ["--t"]), ("canonical", ["--t=false"]), ("negation", ["--no_t"])],
+    },
+    "cglist": {
+        "ostr": ["--model.k", "--model.k+"], "enc": "list",
+        "forms": [("canonical", ["--model.k", "[99]"]),
+                  ("append", ["--model.k+=99"]), ("append", ["--model.k+", "99"]), ("append", ["--model.k+=[99]"])],
+    },
+}
+ENC = {"int": lambda v: v, "list": lambda v: [v], "bool": lambda v: v % 2 == 0}
+
+
+def sh_spell(J, p, o):
+    """s -> t where the option of the (plain or class-group) target t has several spellings."""
+    from typing import List, Optional
+
+    C = _funcs()
+    kind = o["tk"]
+    table = SPELL[kind]
+    enc = ENC[table["enc"]]
+    fn = o.get("fn")
+    src, tgt, group = "s", "t", None
+    defaults = {"s": enc(sval(0, "default"))}
+    if kind == "alias":
+        p.add_argument("--s", type=int, default=defaults["s"])
+        p.add_argument("-t", "--t", "--target", type=int, required=True)
+    elif kind == "list":
+        p.add_argument("--s", type=List[int], default=defaults["s"])
+        p.add_argument("--t", type=List[int], required=True)
+    elif kind == "optlist":
+        p.add_argument("--s", type=Optional[List[int]], default=defaults["s"])
+        p.add_argument("--t", type=Optional[List[int]], default=None)
+    elif kind == "yesno":
+        p.add_argument("--s", action=J.ActionYesNo, default=defaults["s"])
+        p.add_argument("--t", action=J.ActionYesNo, default=True)
+    else:  # "cglist": list-typed parameters of class groups
+        p.add_class_arguments(C.DataL, "data")
+        p.add_class_arguments(C.ModelL, "model")
+        src, tgt, group = "data.n", "model.k", "model"
+        defaults = {"data.n": [3]}
+    # the option strings the target owns before it is linked (the link action must take over every one of them)
+    owned = [a.option_strings for a in p._actions if a.dest == tgt]
+    p.link_arguments(src, tgt, C.FUNCS.get(fn))
+    return {
+        "leaves": [src],
+        "defaults": defaults,
+        "links": [{"src": [src], "fn": fn, "tgt": tgt, "kind": "plain"}],
+        "topt": "--" + tgt,
+        "tenv": tgt,
+        "group": group,
+        "enc": table["enc"],
+        "tval": True if kind == "yesno" else enc(TGT),
+        "spell": kind,
+        "owned": sorted(owned[0]) if len(owned) == 1 else owned,
+    }
+
+
 SHAPES = {"plain": sh_plain, "two": sh_two, "grp": sh_grp, "cgroup": sh_cgroup, "init": sh_init, "list": sh_list,
-          "holder": sh_holder}
+          "holder": sh_holder, "spell": sh_spell}
 
 
 def new_parser(J):
@@ -247,18 +332,22 @@ def render(info, case):
     entry, tgt = case["entry"], case.get("tgt", "none")
     envsel = entry.endswith("-envsel")  # the subcommand is selected through the environment, not named in the input
     entry = entry.split("-")[0]
-    tval = {"z": TGT} if info.get("tdict") else TGT
+    tval = info.get("tval", {"z": TGT} if info.get("tdict") else TGT)
+    enc = ENC[info.get("enc", "int")]
     env, cfgd, doc, items, early = {}, {}, {}, [], []
     doc_ch = "obj" if entry == "object" else "str"
     for i, leaf in enumerate(info["leaves"]):
         for ch in case["src"].get(leaf, ()):
-            v = sval(i, ch)
+            v = enc(sval(i, ch))
             if ch == "env":
-                env[env_name(prefix, leaf)] = str(v)
+                env[env_name(prefix, leaf)] = json.dumps(v)
             elif ch == "cfg":
                 set_nested(cfgd, leaf, v)
             elif ch == "argv":
-                items.append(f"--{leaf}={v}")
+                if info.get("enc") == "bool":  # yes/no flags take no explicit value: --s / --no_s
+                    items.append(f"--{leaf}" if v else f"--no_{leaf}")
+                else:
+                    items.append(f"--{leaf}={json.dumps(v)}")
             elif ch in ("obj", "str"):
                 assert ch == doc_ch, (ch, entry)
                 set_nested(doc, leaf, v)
@@ -310,13 +399,20 @@ def render(info, case):
             if info.get("tpos"):
                 items.append(str(TGT))
             else:
-                items.append(f"{info['topt']}={json.dumps(tval) if info.get('tdict') else tval}")
+                items.append(f"{info['topt']}={json.dumps(tval)}")
         elif tgt == "option_first":
-            early.append(f"{info['topt']}={json.dumps(tval) if info.get('tdict') else tval}")
+            early.append(f"{info['topt']}={json.dumps(tval)}")
+        elif tgt == "spelled":
+            # the target's option in one of its other spellings (see SPELL), after / before the source options
+            tokens = list(SPELL[info["spell"]]["forms"][case["sp"]][1])
+            if case.get("spos") == "first":
+                early += tokens
+            else:
+                items += tokens
         elif tgt == "cfg":
             set_nested(cfgd, t, tval)
         elif tgt == "env":
-            env[env_name(prefix, info["tenv"])] = json.dumps(tval) if info.get("tdict") else str(tval)
+            env[env_name(prefix, info["tenv"])] = json.dumps(tval)
         elif tgt == "group":
             early.append(f"--{info['group']}={json.dumps({t.split('.', 1)[1]: tval})}")
         elif tgt == "group_env":
@@ -512,7 +608,7 @@ def check_config(J, parser, make_parser, info, cfg, devs, obs, serial=("yaml", "
             elif got is ABSENT:
                 devs.append((sig("target-absent", info, link, tag), f"{where} missing; expected {want!r}; cfg {tree!r}"))
             elif tcanon(got) != tcanon(want):
-                kept = "supplied-value-kept" if got in (TGT, {"z": TGT}) else tag
+                kept = "supplied-value-kept" if got in (TGT, {"z": TGT}, [TGT]) else tag
                 devs.append(
                     (sig("target-wrong", info, link, kept), f"{where} = {got!r}, f(final sources) = {want!r}; cfg {tree!r}")
                 )
@@ -585,7 +681,7 @@ def expectation(info, case):
     """What the statement fixes about acceptance: "reject" / "accept" / "open" (not judged)."""
     tgt = case.get("tgt", "none")
     plain = any(l["kind"] == "plain" for l in info["links"])
-    if plain and tgt in ("option", "option_first"):
+    if plain and tgt in ("option", "option_first", "spelled"):
         return "reject"  # the command-line option of a plain-argument target is rejected
     if case["o"].get("fn") == "fbad":
         return "reject"  # compute_fn result not compatible with the target type (links are applied before validation)
@@ -594,11 +690,15 @@ def expectation(info, case):
     return "accept"
 
 
+def tgt_is_spelled(case):
+    return case.get("tgt") == "spelled"
+
+
 def run_single(case):
     """Execute one case of the main space on the real code; returns (devs, obs)."""
     import jsonargparse as J
 
-    from mc.util import restored_process_state
+    from mc.util import restored_process_state, tcanon
 
     devs, obs = [], {}
     shape, o = case["shape"], case["o"]
@@ -611,6 +711,14 @@ def run_single(case):
         inp = render(info, case)
         entry = case["entry"]
         apply_env(inp["env"])
+        if "spell" in info:
+            # guard on the spelling tables: they must name exactly the option strings the target action owned
+            want_ostr = sorted(SPELL[info["spell"]]["ostr"])
+            if info["owned"] != want_ostr:
+                devs.append((sig("harness:target-option-strings-not-enumerated", info),
+                             f"the target owns {info['owned']!r}, enumerated {want_ostr!r}"))
+            if tgt_is_spelled(case):
+                obs["spelled"] = SPELL[info["spell"]]["forms"][case["sp"]][0]
         want = expectation(info, case)
         tgt = case.get("tgt", "none")
         if entry == "print" and want != "accept":
@@ -673,19 +781,30 @@ def run_single(case):
         obs["accepted"] = 1
         if want == "reject":
             what = "illtyped-compute-result-accepted" if o.get("fn") == "fbad" else "own-option-accepted"
-            devs.append((sig(what, info, info["links"][0]), f"input {inp!r} -> {cfg!r}"))
+            how = None
+            if tgt == "spelled":  # which class of spelling slipped through (canonical: no suffix)
+                how = SPELL[info["spell"]]["forms"][case["sp"]][0]
+                how = None if how == "canonical" else how + "-spelling"
+            devs.append((sig(what, info, info["links"][0], how), f"input {inp!r} -> {cfg!r}"))
             if o.get("fn") == "fbad":
                 return devs, obs
         # which channel won for every source leaf (vacuity guard material; the oracle itself reads the final values)
         tree = plainify(J.strip_meta(cfg), J.Namespace)
         winners = []
+        enc = ENC[info.get("enc", "int")]
         for i, leaf in enumerate(info["leaves"]):
             v = lookup(tree, info["prefix"] + leaf.split("."))
             dflt = info.get("defaults", {}).get(leaf, sval(i, "default"))
-            supplied = {sval(i, ch): ch for ch in case["src"].get(leaf, ())}
-            if v in supplied:
-                winners.append(supplied[v])
-            elif v == dflt and not supplied:
+            supplied = [(enc(sval(i, ch)), ch) for ch in case["src"].get(leaf, ())]
+            won = [ch for x, ch in supplied if tcanon(x) == tcanon(v)]
+            if info.get("enc") == "bool":
+                # only two values: the channel cannot be identified from the final value (the list / int kinds of
+                # the same family carry the channel guard)
+                if not (won or (tcanon(v) == tcanon(dflt) and not supplied)):
+                    devs.append((sig("harness:source-value-not-from-any-channel", info), f"{leaf} = {v!r}; input {inp!r}"))
+            elif won:
+                winners.append(won[0])
+            elif tcanon(v) == tcanon(dflt) and not supplied:
                 winners.append("default")
             else:
                 winners.append("?")
